@@ -26,6 +26,8 @@ func genPrims() {
 	for _, n := range names {
 		bodies = append(bodies, [2]string{n, canonFunc(mach, fds[n])})
 	}
+	g.pf("/-- the four codecs (C15) -/\ndef codecBodies : List (String × String) :=\n  %s\n\n", leanPairList(bodies[0:4]))
+	g.pf("/-- UInt64ToString, Assume, Assert, MapClear, WaitTimeout (C16) -/\ndef primBodies : List (String × String) :=\n  %s\n\n", leanPairList(bodies[4:9]))
 	g.pf("/-- canonical text of the functions of machine/prims.go (package identifiers resolved to import paths) -/\n")
 	g.pf("def machineBodies : List (String × String) :=\n  %s\n\n", leanPairList(bodies))
 
